@@ -55,6 +55,15 @@ CLAIMED['C15'] = dict(
     note='Trusted: Coq kernel; small hand-written model tied by replaying histories with a capturing leak handler (node and array requests whose element size differs from the node size, arbitrary unreleased subsets, moves onto fresh and leaking targets) on pools, collections and stacks in base/dbg8; the stateless low-level allocators are run in child processes and must report the process-wide net (actual sizes, fences included) exactly once during static destruction -- checked on the implementation, the global counter is not modelled separately.',
     technique='Coq proof over a counter model + replay with captured handler', ref='5 C15')
 
+CLAIMED['C11'] = dict(
+    text='Exec model of the joint stack behind joint_allocator and joint_array (Joint.v). Theorems for every additional size (0 and exact fit included), every sequence of requests, range-constructor bumps and last-allocation releases: pieces lie behind the object inside its single block, stacked one behind the other (hence disjoint) and aligned as asked; a request throws exactly when padding + size exceed what is left and then changes nothing; the release parameters equal the allocation parameters (address, sizeof T + additional size) after any sequence of joint operations; clone_joint asks for sizeof T + the memory in use, which is within the capacity.',
+    note='Trusted: Coq kernel; hand-written model tied in lock-step to a joint type with three member joint_arrays (char, 8-byte, 16-byte-aligned elements; size/value/initializer-list/range constructors) plus raw joint_allocator requests of arbitrary size/alignment: offsets, capacity_left, leaf request/release parameters and clone request size must be equal; additional sizes swept around what the layout needs; reset, = nullptr, clone, move-with-allocator, swap. That the object is destroyed exactly once is counted by the harness (and under C20), not proved.',
+    technique='Coq proofs over an executable bump model + lock-step correspondence', ref='5 C11')
+CLAIMED['C20'] = dict(
+    text='Control-flow model of the array-building helpers as event lists (ExcSafety.v). Theorems for every length n and every failing index k < n: exactly elements 0..k-1 are constructed and each is destroyed once, nothing else is constructed or destroyed, the memory is obtained once and released once, the exception is the last event; with no failure each element is constructed once and destroyed once at release.',
+    note='Trusted: Coq kernel; the model is a hand-written rendering of the helpers\' try/catch and guard-object structure, tied by comparing, event by event, the log of the real allocate_unique<T>, allocate_unique<T[]> (plain and any_allocator) and allocate_shared on an instrumented leaf and on real pools/stacks for the complete range lengths 0..16 (thorough 0..64) x every failing index; joint_ptr creation, the joint_array constructors, clone_joint and move-with-allocator are checked by counters on the implementation (constructed = destroyed, none twice, memory balanced with matching parameters, exception propagated, allocator usable) rather than by event-list equality.',
+    technique='Coq proof over an event-list model + exhaustive enumeration of (length, failing index) on the real helpers', ref='5 C20')
+
 NOT_YET = {}
 
 checks = []
